@@ -9,13 +9,14 @@ import os
 import sys
 
 cov, prop = sys.argv[1], sys.argv[2]
+interp_only = "--interp-only" in sys.argv   # count only statements executed by the symbolic interpreter (deductive reach)
 repo = os.environ.get("PYVC_REPO", "/repo")
 props = {json.loads(l)["id"]: json.loads(l) for l in open("/verif/properties.jsonl")}
 files = props[prop]["anchors"]["files"]
 hit = {}
 for f in glob.glob(os.path.join(cov, "*.json")):
     d = json.load(open(f))
-    for fn, ln in d["native"]:
+    for fn, ln in ([] if interp_only else d["native"]):
         hit.setdefault(fn, set()).add(ln)
     for mod, ln in d["interpreted"]:
         hit.setdefault(mod.replace(".", "/") + ".py", set()).add(ln)
